@@ -598,7 +598,7 @@ def mtn_kwargs(on, vector=False):
 
 def f32exact(a):
     """round to values that are exactly representable in float32: a float32 / list realisation of the same positions
-    then converts to exactly the same float64 values (Field._pos_equal compares exactly since /repo bd353ac)"""
+    then converts to exactly the same float64 values (Field._pos_equal compares exactly since /repo 1925c43)"""
     return np.asarray(a, dtype=np.float32).astype(np.double)
 
 
